@@ -100,6 +100,28 @@ def impl_oracle(c):
         if not c.get("serve_done"):
             out.append(("serve-not-done", "the serve loop did not exit after the connection was lost"))
         return out
+    if c["stream"] == "ep":
+        for x in c.get("ep", []):
+            if not x["returned"]:
+                out.append(("%s-stuck" % x["kind"],
+                            "endpoint side, scenario '%s': a goroutine in %s had not returned after 10 s"
+                            % (c["fault"], {"accept": "Endpoint.Accept", "close": "Endpoint.Close",
+                                            "dial": "Dial (sendAccept on the endpoint)"}[x["kind"]])))
+            elif c["fault"] == "sendaccept-close" and x["kind"] == "dial" and x.get("after_ms", 0) > 3000:
+                out.append(("sendaccept-not-released",
+                            "a dial whose sendAccept was waiting for somebody to accept returned only %d ms after "
+                            "Endpoint.Close had returned (p.closed must release it at once)" % x["after_ms"]))
+        if c.get("sendaccept_left", 0) > 0:
+            out.append(("sendaccept-not-released",
+                        "%d goroutine(s) are still waiting in Endpoint.sendAccept 3 s after Endpoint.Close returned "
+                        "(closing p.closed must release them at once)" % c["sendaccept_left"]))
+        if c.get("close_ms", 0) > 8000:
+            out.append(("close-slow", "Endpoint.Close took %d ms (its graceful wait is bounded by a 5 s timer)"
+                        % c["close_ms"]))
+        if c.get("leak"):
+            out.append(("goroutine-left", "goroutines still inside sniproxy/netutil after teardown: %s"
+                        % ", ".join(sorted(set(c["leak"]))[:4])))
+        return out
     # e2e
     fc = c.get("front_closed") or []
     side = c["fault"].startswith("side-")
@@ -145,7 +167,9 @@ def run(ck):
         bound = os.environ.get("VERIF_C04_BOUND", "10")     # observation bound in seconds
         n = int(os.environ.get("VERIF_C04_N", n))           # (for demonstrations on a defective tree,
         ne = int(os.environ.get("VERIF_C04_E2E", ne))       #  where every stranded thread costs a bound)
-        rc, out, err = vlib.sh2([binp, "-seed", str(ck.seed), "-n", str(n), "-e2e", str(ne), "-bound", bound],
+        nep = int(os.environ.get("VERIF_C04_EP", 8 if not ck.thorough else 64))
+        rc, out, err = vlib.sh2([binp, "-seed", str(ck.seed), "-n", str(n), "-e2e", str(ne), "-bound", bound,
+                                 "-ep", str(nep)],
                                 timeout=6000)
         if rc != 0:
             ck.broken.append({"what": "harness run failed", "detail": err[-1500:]})
@@ -190,6 +214,10 @@ def run(ck):
             for x in c.get("callers", []):
                 kk = "%s/%s" % (x["kind"], x["ctx"])
                 kinds[kk] = kinds.get(kk, 0) + 1
+        elif c["stream"] == "ep":
+            key = json.dumps(["ep", c["fault"], c["conns"], [(x["kind"], x["returned"]) for x in c.get("ep", [])]])
+            trivial = False
+            faults["ep:" + c["fault"]] = faults.get("ep:" + c["fault"], 0) + 1
         else:
             key = json.dumps([c["fault"], c["conns"], c.get("hold"), c.get("front_closed")])
             trivial = c["conns"] == 0
@@ -206,7 +234,7 @@ def run(ck):
                          {"case": small, "original_case": c if small is not c else None,
                           "expected": "every operation returns, front connections are closed, the name "
                                       "is unregistered, serving terminates, no goroutine is left",
-                          "observed": {k2: small.get(k2) for k2 in ("callers", "reader_alive", "front_closed", "mid_dial",
+                          "observed": {k2: small.get(k2) for k2 in ("callers", "reader_alive", "front_closed", "mid_dial", "ep", "close_ms",
                                                                     "unregistered", "servefront_returned", "leak")}})
     ck.coverage["e2e_faults"] = faults
     ck.coverage["tl_caller_kinds"] = kinds
@@ -274,7 +302,9 @@ def run(ck):
              "connections established, endpoint kicked while a side dial is in flight and its side websocket is held "
              "in the server} x 0-8 tunnelled "
              "TLS front connections with the server thread held after serve() until the connections' close calls "
-             "are issued. Non-trivial: a scenario with >= 1 caller / >= 1 front connection; distinct = distinct "
+             "are issued; plus endpoint-side scenarios driving Endpoint.Accept / Close / sendAccept explicitly (Accept "
+             "pending when the server severs, kicks or closes the endpoint; two Close calls concurrent with Accepts; 12 "
+             "dials with nobody accepting, then Close or a late Accept). Non-trivial: a scenario with >= 1 caller / >= 1 front connection; distinct = distinct "
              "(steps, per-caller outcome) resp. (fault, connections, hold, outcome)",
         assumptions=["enabled goroutines are eventually scheduled (Go runtime)",
                      "a 10 s observation bound stands in for 'bounded time'",
